@@ -123,7 +123,8 @@ def gen():
     # ---- mecab_oov: unk.def
     rel = "sudachi/src/plugin/oov/mecab_oov/mod.rs"
     t = F.strip_comments(F.src(rel))
-    b = F.fn_body(t, "read_oov", rel)
+    # range checks moved into a private helper (`Self::check(&oov, grammar)?`) are read where the helper is called
+    b = F.inline_calls(t, F.fn_body(t, "read_oov", rel))
     for fld, col in (("left_id", 1), ("right_id", 2), ("cost", 3)):
         if not re.search(r"\b%s\s*:\s*cols\[%d\]\.parse\(\)\?" % (fld, col), b):
             raise F.FactError("read_oov: %s is no longer parsed from column %d" % (fld, col))
